@@ -72,3 +72,61 @@ func c02DynRun(idx int, r *Result) {
 		}
 	}
 }
+
+// C02, dynamic containers whose first component conforms and a later one does not: a JSON list
+// `[1, "two", 3]` bound to `[int]`, an object whose second field has the wrong type, nested
+// lists. Wherever the value is admitted, using every component as its static type says must end
+// in an outcome of the language (the cast error, if the value is refused) - never in a crash.
+
+var c02HetValues = []struct{ name, json, ty, use string }{
+	{"int-list-with-a-string-second", `[1, \"two\", 3]`, "[int]", "let t = 0;\n        for x in v { t += x; }\n        println(t);"},
+	{"int-list-with-a-string-last", `[1, 2, \"three\"]`, "[int]", "let t = 0;\n        for x in v { t += x; }\n        println(t);"},
+	{"str-list-with-an-int-second", `[\"a\", 2]`, "[str]", "let t = \"\";\n        for x in v { t = t + x; }\n        println(t);"},
+	{"bool-list-with-an-int-second", `[true, 0]`, "[bool]", "let t = true;\n        for x in v { t = t && x; }\n        println(t);"},
+	{"float-list-with-a-string-second", `[1.5, \"x\"]`, "[float]", "let t = 0.0;\n        for x in v { t += x; }\n        println(t);"},
+	{"nested-list-with-a-string-in-the-second-row", `[[1], [\"x\"]]`, "[[int]]", "let t = 0;\n        for r in v { for x in r { t += x; } }\n        println(t);"},
+	{"object-with-a-wrong-second-field", `{\"a\": 1, \"b\": \"x\"}`, "{ a: int, b: int }", "println(v.a + v.b);"},
+	{"list-of-objects-with-a-wrong-second-one", `[{\"a\": 1}, {\"a\": \"x\"}]`, "[{ a: int }]", "let t = 0;\n        for o in v { t += o.a; }\n        println(t);"},
+	{"option-list-with-a-string-second", `[1, \"two\"]`, "[?int]", "let t = 0;\n        for x in v { t += x.unwrap_or(0); }\n        println(t);"},
+}
+var c02HetSinks = []struct{ name, stmt string }{
+	{"annotated-let", "let v: TY = SRC;"},
+	{"cast", "let v = SRC as TY;"},
+	{"annotated-let-of-a-variable", "let a: any = SRC;\n        let v: TY = a;"},
+	{"argument-after-cast", "let v = keep(SRC as TY);"},
+}
+
+func c02HetCount() int { return len(c02HetValues) * len(c02HetSinks) }
+
+func c02HetRun(idx int, r *Result) {
+	d := radix(idx, len(c02HetSinks), len(c02HetValues))
+	sink, val := c02HetSinks[d[0]], c02HetValues[d[1]]
+	src := "\"" + val.json + "\".parse_json()"
+	stmt := strings.ReplaceAll(strings.ReplaceAll(sink.stmt, "SRC", src), "TY", val.ty)
+	text := "fn keep(p: " + val.ty + ") -> " + val.ty + " { p }\nfn main() {\n    try {\n        " + stmt + "\n        " + val.use + "\n    } catch e {\n        println(\"caught\");\n    }\n    println(\"end\");\n}\n"
+	tags := []string{"heterogeneous-dynamic-container", "value:" + val.name, "sink:" + sink.name}
+	a := Analyze(map[string]string{"main": text}, true)
+	r.Trans(1)
+	if a.Obs.Class == "HOST-PANIC" {
+		r.Fail("HOST-PANIC:"+panicFunc(a.Obs.PanicSite)+":"+normMsg(a.Obs.Msg), append([]string{"stage:analyze"}, tags...), text, a.Obs.String())
+		return
+	}
+	if len(a.Syn) > 0 {
+		r.Fail("HARNESS:heterogeneous-container program has a syntax error", tags, text, a.Obs.String())
+		return
+	}
+	if !a.Obs.Accepted() {
+		r.Note("heterogeneous-container:rejected-by-the-analyzer:"+sink.name, 1)
+		r.Outcome("rejected")
+		return
+	}
+	r.Sample(text)
+	for _, b := range backendNames {
+		o := runOn(b, a, r)
+		r.Distinct(fmt.Sprintf("het|%s|%s|%s|%s", val.name, sink.name, b, o.Key()))
+		r.Outcome(b + ":" + o.Class)
+		if cc := crashClass(o); cc != "" && !strings.HasPrefix(cc, "HANG") {
+			r.Fail(cc, append([]string{"backend:" + b}, tags...), text, o.String())
+		}
+	}
+}
